@@ -702,9 +702,12 @@ class Unary(Expression):
 
     @contextmanager
     def calculate(self, dst, long, force=False):
-        with self.arg.calculate(dst, long, force) as (dst, long):
-            self.calculate_unary(dst, long)
-            yield dst, long
+        # always work on a copy: the operation is done in place, and the
+        # argument may be a register that still holds somebody's value
+        with self.ebpf.get_free_register(dst) as dst:
+            with self.arg.calculate(dst, long, True) as (dst, long):
+                self.calculate_unary(dst, long)
+                yield dst, long
 
     def contains(self, no):
         return self.arg.contains(no)
